@@ -23,7 +23,7 @@ from fractions import Fraction
 import numpy as np
 
 from ..cert import DM, chol_factor, frac_json, repair_povm
-from ..common import InfraError
+from ..common import CorrespondenceBroken, InfraError
 from ..exact import Pure, call_rng, describe, present_list, vary_ensemble
 from ..pool import Result, run_pool, worker_driver, fold
 from .. import qgen
@@ -798,7 +798,7 @@ def _symext_vars(P, k, D, Dext, rhos_f, probs):
             # the right number of square variables of another size: the code read the dimensions differently (a verdict about the code, not about the harness)
             raise _WrongSizes(f"expected {k} measurement variables {D}x{D} and {k} extension variables {Dext}x{Dext}, the program has "
                               f"{[tuple(int(t) for t in v.shape) for v in objv]} / {[tuple(int(t) for t in v.shape) for v in rest]}")
-        raise InfraError(f"symmetric_extension_hierarchy: expected {k} measurement variables {D}x{D} in the objective and {k} extension variables {Dext}x{Dext}, "
+        raise CorrespondenceBroken(f"symmetric_extension_hierarchy: expected {k} measurement variables {D}x{D} in the objective and {k} extension variables {Dext}x{Dext}, "
                          f"found {[v.shape for v in objv]} / {[v.shape for v in rest]}")
     how = []
     r = np.random.default_rng(20240918)
@@ -935,7 +935,7 @@ def work_symext_embed(task, res: Result):
                       {"function": "symmetric_extension_hierarchy", "args": base, "exception": f"{type(e).__name__}: {str(e)[:300]}", "theorem": "separable_meas_feasible"})
         return
     if len(got) != 1:
-        raise InfraError(f"expected one cvxpy problem from symmetric_extension_hierarchy, captured {len(got)}")
+        raise CorrespondenceBroken(f"expected one cvxpy problem from symmetric_extension_hierarchy, captured {len(got)}")
     P = got[0]
     res.count("symext/problems-captured")
     res.count("symext/constraints-captured", len(P.constraints))
